@@ -78,11 +78,12 @@ def check_graph(r, k, G, depths=(0, 1, 2, 3, 4), leaf_from=None):
             if M.shape != (n, n) or not np.array_equal(M.astype(int), expM):
                 r.v(pre + 'accessor_to_adjacency_matrix|ones-not-exactly-at-arcs', 'graph', case)
             else:
-                st, back, _ = brun(dsw.adjacency_matrix_to_accessor, mat)
-                r.trans += 1
-                if st != 'ok' or U.rows(back) != G:
-                    r.v(pre + 'adjacency_matrix_to_accessor|round-trip-differs', 'graph', case, None,
-                        repr(back)[:200] if st != 'ok' else U.rows(back)[:16])
+                for dt in ((None, np.int8, bool) if (k >= 4 or n <= 16) else (None,)):
+                    st, back, _ = brun(dsw.adjacency_matrix_to_accessor, mat if dt is None else M.astype(dt))
+                    r.trans += 1
+                    if st != 'ok' or U.rows(back) != G:
+                        r.v(pre + 'adjacency_matrix_to_accessor|round-trip-differs%s' % ('' if dt is None else '|matrix-dtype-' + np.dtype(dt).name), 'graph', case, None,
+                            repr(back)[:200] if st != 'ok' else U.rows(back)[:16])
     # vertex listing
     st, vs, _ = brun(dsw.obtain_vertices, acc)
     r.trans += 1
